@@ -26,7 +26,8 @@ type unfaithful struct {
 	kind string // "key-missing-in-plan" | "key-extra-in-plan" | "key-duplicate-in-plan" | "node-kind" | "nullability" | "possible-types" | "enum-values" | "path"
 	what string
 
-	p []any
+	p   []any
+	key string // response key concerned (key-* kinds)
 	// attributes used by the recognisers of the planner findings
 	typenameField   bool      // the key concerned is a __typename selection (in the operation or in the plan)
 	level           levelInfo // of the object's selection level
@@ -233,7 +234,7 @@ func (tv *tview) object(obj *resolve.Object, t *gast.Type, sets []gast.Selection
 		pf, ok := byKey[f.key]
 		if !ok {
 			u := tv.add(path, "key-missing-in-plan", "operation selects %q (%s) for runtime type %s (__typename in data: %s), plan does not%s", f.key, f.name, rt, tnText(tn), conditionsOf(obj, f.key))
-			u.typenameField, u.level, u.absentTypename = f.name == "__typename", li, planFilled[f.key]
+			u.key, u.typenameField, u.level, u.absentTypename = f.key, f.name == "__typename", li, planFilled[f.key]
 			tv.mergeAttrs(u, obj, f.key, cf, path)
 			continue
 		}
@@ -259,7 +260,7 @@ func (tv *tview) object(obj *resolve.Object, t *gast.Type, sets []gast.Selection
 		if !opKeys[string(f.Name)] {
 			u := tv.add(path, "key-extra-in-plan", "plan renders %q for runtime type %s (__typename in data: %s), operation does not select it%s", f.Name, rt, tnText(tn), conditionsOf(obj, string(f.Name)))
 			_, isStr := f.Value.(*resolve.String)
-			u.typenameField, u.level = isStr && f.Value.(*resolve.String).IsTypeName, li
+			u.key, u.typenameField, u.level = string(f.Name), isStr && f.Value.(*resolve.String).IsTypeName, li
 			tv.mergeAttrs(u, obj, string(f.Name), cf, path)
 		}
 	}
